@@ -3,6 +3,7 @@
 {"id","tree"} or {"id","exc"}."""
 import json
 import logging
+import re
 import sys
 import traceback
 import warnings
@@ -56,6 +57,7 @@ def label(node):
 
 
 _pids = {}
+PIECES = re.compile(r"\w+|[^\w\s]")
 
 
 def nearest_paragraph(node):
@@ -71,7 +73,9 @@ def canon(node, bold, italic, heading_of=None):
     if isinstance(node, nodes.Text) and node.__class__ in (nodes.Text,):
         cap = node.caption or ""
         pid = nearest_paragraph(node)
-        return [["L", w, bold, italic, pid] for w in cap.split()]    # adjacent text tokens are merged by the post-processors
+        # leaves = maximal alphanumeric runs and single punctuation characters: the leaf sequence does not depend on how
+        # the parser happens to chop the text into Text nodes ("2:1" is 2 : 1 whether it is one node or three)
+        return [["L", w, bold, italic, pid] for w in PIECES.findall(cap)]
     if isinstance(node, advtree.Strong):
         bold = True
     elif isinstance(node, (advtree.Emphasized, advtree.Italic)):
